@@ -596,6 +596,10 @@ func (ev *c08Eval) classify(op string, a, b c08Val) {
 			if math.IsInf(r, 0) {
 				ev.dev("overflow-inf")
 			}
+			if math.IsNaN(r) {
+				// excelize keeps a NaN as an error *value* on the operand stack: evaluation goes on
+				ev.dev("numerr-swallowed")
+			}
 		}
 	case "cat":
 		for _, v := range []c08Val{a, b} {
@@ -894,6 +898,10 @@ func (st *c08State) formula(r *Run, opname, key string, tree *c08Node, spaced bo
 	}
 	if ev.class != "" {
 		r.Stat("deviant:" + ev.class)
+		if key != "" {
+			// the cell's rendered value may agree while its kind differs (text "-2" vs number -2)
+			st.taint[key] = ev.class
+		}
 	}
 	return spec
 }
@@ -989,6 +997,137 @@ func (st *c08State) rawFormula(r *Run, text string) {
 	if pan {
 		r.Stat("raw:panic")
 	}
+}
+
+
+// ---------------------------------------------------------------- aggregates over ranges (direct oracle only)
+
+var c08AggFns = []string{"SUM", "AVERAGE", "COUNT", "COUNTA", "MIN", "MAX", "PRODUCT"}
+
+// c08AggSpec: Excel's fold over the cells of a range: text, booleans and blanks are ignored
+// (COUNTA counts every non-empty cell), an error cell propagates (except for COUNT/COUNTA).
+func c08AggSpec(fn string, cells []c08Val) c08Val {
+	var nums []float64
+	nonEmpty := 0
+	for _, v := range cells {
+		switch v.K {
+		case "num":
+			nums = append(nums, v.N)
+			nonEmpty++
+		case "text", "bool":
+			nonEmpty++
+		case "err":
+			nonEmpty++
+			if fn != "COUNT" && fn != "COUNTA" {
+				return v
+			}
+		}
+	}
+	switch fn {
+	case "COUNT":
+		return c08Num(float64(len(nums)))
+	case "COUNTA":
+		return c08Num(float64(nonEmpty))
+	case "SUM":
+		t := 0.0
+		for _, x := range nums {
+			t += x
+		}
+		return c08Num(t)
+	case "AVERAGE":
+		if len(nums) == 0 {
+			return c08Err("#DIV/0!")
+		}
+		t := 0.0
+		for _, x := range nums {
+			t += x
+		}
+		return c08Num(t / float64(len(nums)))
+	case "PRODUCT":
+		if len(nums) == 0 {
+			return c08Num(0)
+		}
+		t := 1.0
+		for _, x := range nums {
+			t *= x
+		}
+		return c08Num(t)
+	}
+	if len(nums) == 0 {
+		return c08Num(0)
+	}
+	m := nums[0]
+	for _, x := range nums[1:] {
+		if fn == "MIN" && x < m || fn == "MAX" && x > m {
+			m = x
+		}
+	}
+	return c08Num(m)
+}
+
+// aggregates over fixed ranges of the fixed workbook; the signature names the function and the
+// kinds of ignorable content present in the range
+func (st *c08State) aggregates(r *Run) {
+	ranges := []string{"A1:A1", "A1:A6", "A5:A6", "A3:A3", "A1:A3", "A1:A2", "A4:A6", "A3:A5", "A1:B2", "B1:B2", "B2:B2", "A6:A6"}
+	for _, rg := range ranges {
+		a, b, _ := strings.Cut(rg, ":")
+		c1, r1, _ := xl.CellNameToCoordinates(a)
+		c2, r2, _ := xl.CellNameToCoordinates(b)
+		var cells []c08Val
+		kinds := map[string]bool{}
+		for row := r1; row <= r2; row++ {
+			for col := c1; col <= c2; col++ {
+				name, _ := xl.CoordinatesToCellName(col, row)
+				v, ok := st.env["Sheet1!"+name]
+				if !ok {
+					v = c08Val{K: "blank"}
+				}
+				cells = append(cells, v)
+				switch {
+				case c08IsNumericText(v):
+					kinds["numeric-text"] = true
+				case v.K == "text" || v.K == "bool" || v.K == "err":
+					kinds[v.K] = true
+				}
+			}
+		}
+		var ks []string
+		for _, k := range []string{"numeric-text", "text", "bool", "err"} {
+			if kinds[k] {
+				ks = append(ks, k)
+			}
+		}
+		for _, fn := range c08AggFns {
+			text := fn + "(" + rg + ")"
+			must(st.f.SetCellFormula("Sheet1", c08Main, text))
+			res, errs, pan := c08Public(st.f, "Sheet1", c08Main)
+			spec := c08AggSpec(fn, cells)
+			r.Case("agg:"+text, true)
+			r.Stat("stream:aggregate (oracle only)")
+			ok, _ := c08Agree(spec, res, errs, pan)
+			if ok {
+				r.Stat("oracle:agree")
+				continue
+			}
+			sig := "agg:" + fn + ":non-numbers-counted"
+			switch {
+			case kinds["err"] && fn != "COUNT":
+				sig = "agg:range-error-not-propagated"
+			case fn == "PRODUCT" || fn == "MIN" || fn == "MAX":
+				sig = "agg:" + fn + ":no-numbers"
+			}
+			_ = ks
+			r.Fail(sig, fmt.Sprintf("=%s over %s: CalcCellValue gives %q err=%q, Excel's fold gives %s", text, c08ShowCells(cells), res, errs, c08Show(spec)), 0, "agg "+hx(text))
+		}
+	}
+}
+
+func c08ShowCells(cs []c08Val) string {
+	var out []string
+	for _, c := range cs {
+		out = append(out, c08Show(c))
+	}
+	return "[" + strings.Join(out, " ") + "]"
 }
 
 // ---------------------------------------------------------------- generator
@@ -1188,12 +1327,22 @@ func c08Operand(kind int) *c08Node {
 	}
 }
 
+func c08Mix(x uint64) uint64 {
+	x += 0x632BE59BD9B4E019
+	x = (x ^ (x >> 30)) * 0xBF58476D1CE4E5B9
+	x = (x ^ (x >> 27)) * 0x94D049BB133111EB
+	return x ^ (x >> 31)
+}
+
 func runC08(r *Run, rng *Rng, replay string) {
 	r.Rule = "a case is one formula evaluated on one workbook; non-trivial = the formula has at least one operator or parenthesis (not a bare literal/reference); distinct = distinct (formula text, workbook contents)"
 	if replay != "" {
 		c08Replay(r, replay)
 		return
 	}
+	// common.go's NewRng(seed) makes the stream of seed k+1 the stream of seed k shifted by one
+	// draw; re-seed through a mixing function so that different seeds explore different cases
+	rng = NewRng(c08Mix(r.Seed))
 	g := &c08Gen{rng: rng}
 	// 1. deterministic witnesses
 	st := c08FixedWorkbook(r)
@@ -1201,6 +1350,7 @@ func runC08(r *Run, rng *Rng, replay string) {
 		st.formula(r, "ev", "", w, false)
 		r.Stat("stream:witness")
 	}
+	st.aggregates(r)
 	// 2. exhaustive: every operator x every ordered pair of operand kinds (12 kinds), plus unary forms
 	for _, op := range c08Ops {
 		for i := 0; i < 12; i++ {
@@ -1324,6 +1474,9 @@ func c08Replay(r *Run, path string) {
 			if t := treeOf(w); t != nil {
 				st.formula(r, "ev", "", t, false)
 			}
+		case "agg":
+			st = c08FixedWorkbook(r)
+			st.aggregates(r)
 		case "evt":
 			for _, x := range w {
 				if strings.HasPrefix(x, "F:") {
